@@ -255,6 +255,42 @@ func c05StoreRace(driver string, kinds []string, bound int) vh.Unit {
 	}}
 }
 
+// nonces of one identity never affect another identity - also when both are submitted at once
+func c05StoreRaceIdentities(driver string, bound int) vh.Unit {
+	name := fmt.Sprintf("store-race-identities/%s", driver)
+	return vh.Unit{Name: name, Run: func(u *vh.U) {
+		vsched.SetVirtualClock(true)
+		var res [2]error
+		var after [4]error
+		body := func() {
+			st := vh.NewStore(driver)
+			nA, nB := c05Nonce("n"), c05Nonce("n")+5
+			vh.Par([]string{"A", "B"},
+				func() { res[0] = st.CheckAndSaveNonce("A", nA) },
+				func() { res[1] = st.CheckAndSaveNonce("B", nB) })
+			after[0] = st.CheckAndSaveNonce("A", nA)   // replay: refused
+			after[1] = st.CheckAndSaveNonce("A", nA+1) // next: accepted
+			after[2] = st.CheckAndSaveNonce("B", nB)   // replay: refused
+			after[3] = st.CheckAndSaveNonce("B", nB+1) // next: accepted
+		}
+		vh.RunDFS(u, vh.DFSSpec{
+			Name: name, Bound: bound,
+			Run:  vsched.Options{YieldFiles: []string{"memory.go", "badger.go", "helpers.go"}},
+			Body: body,
+			Obs:  func(s *vsched.Sched) string { return fmt.Sprint(errs(res[:]), errs(after[:])) },
+			Check: func(s *vsched.Sched) (string, string) {
+				if res[0] != nil || res[1] != nil {
+					return "store-race/" + driver + "/identities/fresh-refused", fmt.Sprintf("two identities submitting their first nonces at once: %v", res)
+				}
+				if after[0] == nil || after[2] == nil || after[1] != nil || after[3] != nil {
+					return "store-race/" + driver + "/identities/records-mixed-up", fmt.Sprintf("A:n and B:n+5 accepted at once; afterwards A:n again -> %v (want refusal), A:n+1 -> %v (want ok), B:n+5 again -> %v (want refusal), B:n+6 -> %v (want ok)", after[0], after[1], after[2], after[3])
+				}
+				return "", ""
+			},
+		})
+	}}
+}
+
 func errs(es []error) []string {
 	r := make([]string, len(es))
 	for i, e := range es {
@@ -488,7 +524,7 @@ func init() {
 				bound = 3
 			}
 			for _, d := range vh.Drivers {
-				us = append(us, c05StoreRace(d, []string{"n", "n"}, bound))
+				us = append(us, c05StoreRace(d, []string{"n", "n"}, bound), c05StoreRaceIdentities(d, bound))
 				us = append(us, c05StoreRace(d, []string{"n", "n+1"}, bound))
 				us = append(us, c05StoreRace(d, []string{"n", "n", "n"}, bound-1))
 				us = append(us, c05StoreRace(d, []string{"n-1", "n", "n+1"}, bound-1))
